@@ -18,14 +18,25 @@ def beforeVerdict : WPc → Prop
   | .top | .wait | .decode _ _ | .publish => True
   | _ => False
 
-structure LiveInv (s : State) : Prop where
-  own : ∀ o ∈ s.queue, o.finished = false → ∃ i, Owner s o i
-  run : ∀ i, i < s.workers.length → (getW s i).hasOut = true → atLoop (getW s i).pc → (getW s i).st = .run ∨ s.pc = .init4
-  wrk : ∀ o ∈ s.queue, ∀ w, o.worker = some w → o.finished = false → Owner s o w
-  tailW : ∀ h t, s.queue = h :: t → ∀ o ∈ t, o.worker ≠ none
-  head : ∀ h t, s.queue = h :: t → h.finished = false →
+/-- The head of the queue, if unfinished, has partial output enabled (worker link cleared, owner's partial_update on), or
+    it is the outbuf that SEQ_BLOCK_THR_INIT has just appended to an empty queue and not yet enabled. -/
+def HeadOk (s : State) : Prop :=
+  ∀ h t, s.queue = h :: t → h.finished = false →
     (h.worker = none ∧ ∀ i, Owner s h i → (getW s i).pu ≠ .disabled) ∨
     (h.worker ≠ none ∧ (s.pc = .init4 ∨ s.pc = .init5) ∧ t = [])
+
+/-- Inside read_output_and_wait, between removing a finished head and lzma_outq_enable_partial_output. -/
+def HeadWeak (s : State) : Prop :=
+  ∀ h t, s.queue = h :: t → h.finished = false →
+    (h.worker = none ∧ ∀ i, Owner s h i → (getW s i).pu ≠ .disabled) ∨ h.worker ≠ none
+
+structure LiveG (H : State → Prop) (s : State) : Prop where
+  own : ∀ o ∈ s.queue, o.finished = false → ∃ i, Owner s o i
+  run : ∀ i, i < s.workers.length → (getW s i).hasOut = true → beforeVerdict (getW s i).pc →
+    (getW s i).st = .run ∨ (s.pc = .init4 ∧ s.thr = some i)
+  wrk : ∀ o ∈ s.queue, ∀ w, o.worker = some w → o.finished = false → Owner s o w
+  tailW : ∀ h t, s.queue = h :: t → ∀ o ∈ t, o.worker ≠ none
+  head : H s
   pub : ∀ i, i < s.workers.length → (getW s i).hasOut = true → atLoop (getW s i).pc → (getW s i).pu = .enabled →
     ∀ o ∈ s.queue, o.blk = (getW s i).blk → o.decInPos = (getW s i).inPos
   snap : ∀ i, i < s.workers.length → ∀ lim, (getW s i).pc = .decode lim .disabled → (getW s i).pu ≠ .enabled
@@ -35,11 +46,14 @@ structure LiveInv (s : State) : Prop where
   kindThr : s.seq = .thrInit → (blk s s.cur).kind = .thr ∨ s.pc = .init4 ∨ s.pc = .init5
   kindInit : s.seq = .blockInit → (blk s s.cur).kind = .thr ∨ (blk s s.cur).kind = .direct
   thrSome : s.seq = .thrRun → ∃ t, s.thr = some t
+  thr5 : s.pc = .init5 → ∃ t, s.thr = some t
   canGet : (s.pc = .init1 ∨ s.pc = .init2 ∨ s.pc = .rowOk .canStart true ∨ s.pc = .rowDone .canStart OK true) →
     s.workers.length < s.cfg.threadsMax ∨ s.threadsFree ≠ []
 
+abbrev LiveInv (s : State) : Prop := LiveG HeadOk s
+
 theorem LiveInv.init (cfg : Cfg) (blocks : List Block) : LiveInv (init cfg blocks) := by
-  constructor <;> simp [MtDec.init]
+  constructor <;> simp [MtDec.init, HeadOk]
 
 /-- **The deadlock argument.** The main thread waits in read_output_and_wait without a pending signal: then the worker that
     owns the head of the queue is not blocked (it is not waiting un-signalled). -/
@@ -60,9 +74,9 @@ theorem head_owner_not_blocked {s : State} (hD : DataInv s) (hL : LiveInv s) (hW
     · rintro ⟨hpc, hwk⟩
       -- the owner waits un-signalled: its wait condition holds
       have hrun : (getW s i).st = .run := by
-        rcases hL.run i hi hown (Or.inr hpc) with e | e
+        rcases hL.run i hi hown (by rw [hpc]; trivial) with e | e
         · exact e
-        · rw [hp] at e; cases e
+        · rw [hp] at e; cases e.1
       rcases hW.wk i hi hpc with e | e | ⟨_, hfill, hpu⟩
       · rw [hwk] at e; cases e
       · rw [hrun] at e; cases e
